@@ -50,11 +50,19 @@ def cliAnswer (s : Str) (limit : Nat) : String :=
   | .ub w => "ub:" ++ (w.replace " " "_")
   | .diverge => "diverge"
   | .ok none => "unsupported"
-  | .ok (some h) => s!"ok | {h.count} | " ++ namesField (iterAll h (limit + 1)) limit
+  | .ok (some h) =>
+    -- what `-Q` lists (hostlist_deranged_string prints every name in full, like hostlist_shift; the
+    -- printing functions themselves are C14's model) and what dsh() walks (hostlist_next)
+    match shiftAll h (limit + 1) with
+    | none => "ub:shift_no_range_record"
+    | some sh =>
+      let a := namesField sh limit
+      let b := namesField (iterAll h (limit + 1)) limit
+      s!"ok | {h.count} | {a} | " ++ (if a = b then "=" else b)
 
 def stepModel (st : Option HL) (line : String) : Option HL × String :=
   match Driver.words line, st with
-  | ["probe", hx, lim], _ | ["fprobe", hx, lim], _ =>
+  | ["probe", hx, lim], _ | ["fprobe", hx, lim], _ | ["fprobe", hx, lim, _], _ =>
     match Hex.decodeToChars hx, lim.toNat? with
     | some s, some l => (st, probeAnswer s l)
     | _, _ => (st, "bad-op")
